@@ -1,6 +1,7 @@
 #!/bin/bash
 # apply every seeded defect to /repo in turn, run the quick check of its property, restore; writes seeded/RESULTS.md
 cd /verif
+export VERIF_EVIDENCE_DIR=/var/tmp/anemo-verif-matrix/evidence VERIF_REPLAY_DIR=/var/tmp/anemo-verif-matrix/replays; mkdir -p $VERIF_EVIDENCE_DIR $VERIF_REPLAY_DIR
 out=seeded/RESULTS.md
 echo "# Seeded defects vs checks (quick tier, $(date -u +%F))" > $out
 echo "" >> $out
